@@ -57,8 +57,8 @@ def gen_modes(rng, kind):
     bauds = rng.sample([28e9, 32e9, 44e9, 60e9, 64e9], rng.randint(2, 3))
     modes = []
     n = rng.randint(2, 7)
-    # one power offset per baud rate (80 %); otherwise per mode, which exercises a listed finding
-    per_baud = rng.random() < 0.8
+    # one power offset per baud rate, or one per mode (each mode must then be judged on its own propagation)
+    per_baud = rng.random() < 0.5
     off_of = {b: G.pick(rng, [0, 0, 1.0, -1.0, 2.0]) for b in bauds}
     for i in range(n):
         b = G.pick(rng, bauds)
